@@ -334,3 +334,50 @@ func scenarioCibaNarrowedAtApproval(ctx *RunCtx) {
 		}
 	}
 }
+
+// C02: a redirect URI that is acceptable only because it was PUSHED is a one-time allowance of that pushed
+// request.  For both storage flavours (the registered client object is shared under `alias`): the plain
+// request naming the URI before anything was pushed, after the push, after the redemption of the pushed request
+// and after the code was redeemed - each with a succeeding policy and with an error that would be redirected.
+func scenarioPushedUnregisteredRedirect(ctx *RunCtx) {
+	for _, fl := range []string{"copy", "alias"} {
+		opts := []Opt{{Name: "WithScopes", Scopes: serverScopes}, {Name: "WithAuthorizationCodeGrant"}, {Name: "WithPAR", Z: 60},
+			{Name: "WithUnregisteredRedirectURIsForPAR"}, {Name: "WithTokenLifetime", Z: 300}}
+		g, err := NewSysGen(ctx.R, WorldSpec{Profile: "openid", Flavour: fl, Static: baseClients(ctx.R), Opts: opts})
+		if err != nil {
+			panic(err)
+		}
+		cred := Cred{ID: 1, OK: true}
+		pol := Pol{Kind: "PolSuccess", Sub: "alice", Granted: "openid email"}
+		for _, u := range []string{"https://unregistered.example/cb", "https://other.example/x?y=1"} {
+			g.W.extraTargets = append(g.W.extraTargets, u)
+			p := Params{Redirect: u, RespType: "code", Scopes: "openid email", State: "st-1"}
+			plain := func() {
+				g.do(Op{Kind: "Authorize", Client: 1, Params: p, PolicyAvail: true, Pol: pol})
+				bad := p
+				bad.Scopes = "openid admin"
+				g.do(Op{Kind: "Authorize", Client: 1, Params: bad, PolicyAvail: true, Pol: pol})
+			}
+			plain()
+			par := g.do(Op{Kind: "Par", Cred: cred, Params: p})
+			plain()
+			if par.Kind != "Par" {
+				continue
+			}
+			nav := g.do(Op{Kind: "Authorize", Client: 1, Params: Params{RequestURI: par.H, RespType: "code", Scopes: "openid email", State: "st-1"}, PolicyAvail: true, Pol: pol})
+			plain()
+			if nav.Kind == "Nav" && nav.NCode != 0 {
+				g.do(Op{Kind: "Token", Grant: "authorization_code", Cred: cred, Code: nav.NCode, Redirect: u, HG: "HgOk", BA: "BaApprove"})
+			}
+			plain()
+			// a second push of the same URI whose redemption fails (no policy): the allowance must not survive it either
+			par2 := g.do(Op{Kind: "Par", Cred: cred, Params: p})
+			if par2.Kind == "Par" {
+				g.do(Op{Kind: "Authorize", Client: 1, Params: Params{RequestURI: par2.H, RespType: "code", Scopes: "openid email", State: "st-1"}, PolicyAvail: false, Pol: pol})
+				plain()
+			}
+		}
+		ctx.AddCase(g.Case("scenario:pushed-unregistered-redirect/" + fl))
+		ctx.AddStats(g.stats)
+	}
+}
